@@ -29,11 +29,11 @@ func (c *Ctx) combineCalls() []*ssa.Call {
 			if !ok {
 				return
 			}
-			if call.Call.IsInvoke() && call.Call.Method.Name() == "Combine" && isNamed(call.Call.Value.Type(), modPath+"/git", "Combiner") {
+			if call.Call.IsInvoke() && mname(call.Call.Method) == "Combine" && isNamed(call.Call.Value.Type(), modPath+"/git", "Combiner") {
 				out = append(out, call)
 				return
 			}
-			if cal := call.Call.StaticCallee(); cal != nil && cal.Name() == "Combine" && pkgOf(cal) == modPath+"/git" {
+			if cal := call.Call.StaticCallee(); cal != nil && refName(cal) == "Combine" && pkgOf(cal) == modPath+"/git" {
 				out = append(out, call)
 			}
 		})
@@ -115,24 +115,44 @@ func (c *Ctx) sameBase(a, b ssa.Value) bool {
 }
 
 func ruleC06Default(c *Ctx) {
-	finish := c.fn("/internal/refopts", "*RefGroupBuilder", "Finish")
-	if finish == nil {
-		c.violate("C06.default", "Finish", token.NoPos, "", "(*refopts.RefGroupBuilder).Finish not found")
-		return
-	}
-	name := fnName(finish)
-	var param *ssa.Parameter
-	for _, p := range finish.Params[1:] {
-		if isBoolType(p.Type()) {
-			param = p
+	// argsEmpty: v is `len(flags.Args()) == 0` / `flags.NArg() == 0` (emptyWhen:
+	// the truth value for which there are no ROOT arguments)
+	argsEmpty := func(v ssa.Value) (ok, emptyWhen bool) {
+		cond, truth := normCond(c.resolve(v), true)
+		cmp, isCmp2 := cond.(*ssa.BinOp)
+		if !isCmp2 {
+			return false, false
 		}
-	}
-	if param == nil {
-		c.violate("C06.default", "Finish:param", finish.Pos(), name, "Finish has no boolean default-all parameter")
-		return
+		n, isK := constInt(cmp.Y)
+		if !isK || n != 0 {
+			return false, false
+		}
+		count := false
+		switch x := cmp.X.(type) {
+		case *ssa.Call:
+			if isBuiltin(&x.Call, "len") {
+				if a, isCall := c.resolve(x.Call.Args[0]).(*ssa.Call); isCall && calleeQ(&a.Call) == "(*github.com/spf13/pflag.FlagSet).Args" {
+					count = true
+				}
+			}
+			if calleeQ(&x.Call) == "(*github.com/spf13/pflag.FlagSet).NArg" {
+				count = true
+			}
+		}
+		if !count {
+			return false, false
+		}
+		switch cmp.Op {
+		case token.EQL, token.LEQ:
+			return true, truth
+		case token.NEQ, token.GTR:
+			return true, !truth
+		}
+		return false, false
 	}
 	seen := map[string]bool{}
-	judge := func(st *ssa.Store, val ssa.Value, facts []condFact) {
+	viaParam := map[*ssa.Parameter]bool{}
+	judge := func(fn *ssa.Function, st *ssa.Store, val ssa.Value, facts []condFact) {
 		mi, ok := val.(*ssa.MakeInterface)
 		if !ok {
 			return
@@ -145,78 +165,86 @@ func ruleC06Default(c *Ctx) {
 		if !ok || (g.Name() != "AllReferencesFilter" && g.Name() != "NoReferencesFilter") {
 			return
 		}
-		var nilOK, paramTruth, paramKnown bool
+		ta, ok := st.Addr.(*ssa.FieldAddr)
+		if !ok || !isNamed(fieldOfAddr(ta).StructT, modPath+"/internal/refopts", "refGroup") {
+			return
+		}
+		name := fnName(fn)
+		var nilOK, decided, emptyArgs bool
 		for _, f := range facts {
 			cond, truth := normCond(f.Cond, f.Truth)
-			if c.resolve(cond) == ssa.Value(param) {
-				paramKnown, paramTruth = true, truth
+			if p, isParam := c.resolve(cond).(*ssa.Parameter); isParam && isBoolType(p.Type()) {
+				decided, emptyArgs = true, truth
+				viaParam[p] = true
+			}
+			if isEmpty, emptyWhen := argsEmpty(cond); isEmpty {
+				decided, emptyArgs = true, truth == emptyWhen
 			}
 			if cmp, ok := isCmp(cond, token.EQL, token.NEQ); ok && isNilConst(cmp.Y) && (cmp.Op == token.EQL) == truth {
 				if lu, ok := cmp.X.(*ssa.UnOp); ok {
-					if fa, ok := lu.X.(*ssa.FieldAddr); ok {
-						if ta, ok := st.Addr.(*ssa.FieldAddr); ok && fieldOfAddr(fa).Var == fieldOfAddr(ta).Var {
-							nilOK = true
-						}
+					if fa, ok := lu.X.(*ssa.FieldAddr); ok && fieldOfAddr(fa).Var == fieldOfAddr(ta).Var {
+						nilOK = true
 					}
 				}
 			}
 		}
-		wantTruth := g.Name() == "AllReferencesFilter"
+		wantEmpty := g.Name() == "AllReferencesFilter"
 		seen[g.Name()] = true
 		switch {
 		case !nilOK:
 			c.violate("C06.default", g.Name(), st.Pos(), name, "the default filter overwrites a filter that the options already built (not guarded by filter == nil)")
-		case !paramKnown || paramTruth != wantTruth:
-			c.violate("C06.default", g.Name(), st.Pos(), name, fmt.Sprintf("%s is installed when the default-all parameter is %v: with no options and no ROOT nothing (or with only ROOTs everything) would be traversed", g.Name(), paramTruth))
+		case !decided || emptyArgs != wantEmpty:
+			c.violate("C06.default", g.Name(), st.Pos(), name, fmt.Sprintf("%s is installed when 'no ROOT arguments' is %v (decided: %v): with no options and no ROOT nothing (or with only ROOTs everything) would be traversed", g.Name(), emptyArgs, decided))
 		default:
-			c.hold("C06.default", g.Name(), st.Pos(), fmt.Sprintf("installed iff filter==nil ∧ defaultAll==%v", wantTruth))
+			c.hold("C06.default", g.Name(), st.Pos(), fmt.Sprintf("installed iff filter==nil ∧ (no ROOT arguments)==%v", wantEmpty))
 		}
 	}
-	allInstrs(finish, func(in ssa.Instruction) {
-		st, ok := in.(*ssa.Store)
-		if !ok {
-			return
-		}
-		if phi, isPhi := st.Val.(*ssa.Phi); isPhi {
-			// `fallback := None; if defaultAll { fallback = All }; filter = fallback`
-			for i, e := range phi.Edges {
-				facts := append(factsOnEdge(phi.Block().Preds[i], phi.Block()), factsAt(st.Block())...)
-				judge(st, e, facts)
+	for _, fn := range c.ModFns {
+		fn := fn
+		allInstrs(fn, func(in ssa.Instruction) {
+			st, ok := in.(*ssa.Store)
+			if !ok {
+				return
 			}
-			return
-		}
-		judge(st, st.Val, factsAt(st.Block()))
-	})
+			if phi, isPhi := st.Val.(*ssa.Phi); isPhi {
+				// `fallback := None; if defaultAll { fallback = All }; filter = fallback`
+				for i, e := range phi.Edges {
+					facts := append(factsOnEdge(phi.Block().Preds[i], phi.Block()), factsAt(st.Block())...)
+					judge(fn, st, e, facts)
+				}
+				return
+			}
+			judge(fn, st, st.Val, factsAt(st.Block()))
+		})
+	}
 	for _, g := range []string{"AllReferencesFilter", "NoReferencesFilter"} {
 		if !seen[g] {
-			c.violate("C06.default", g, finish.Pos(), name, "Finish never installs git."+g+" as the default")
+			c.violate("C06.default", g, token.NoPos, "", "git."+g+" is never installed as the default top-level filter")
 		}
 	}
-	// caller passes len(flags.Args()) == 0
-	for _, ci := range c.Callers[finish] {
-		call, ok := ci.(*ssa.Call)
-		if !ok {
-			continue
-		}
-		arg := call.Call.Args[1]
-		okArg := false
-		if cmp, ok := arg.(*ssa.BinOp); ok && cmp.Op == token.EQL {
-			if n, ok := constInt(cmp.Y); ok && n == 0 {
-				if l, ok := cmp.X.(*ssa.Call); ok && isBuiltin(&l.Call, "len") {
-					if a, ok := l.Call.Args[0].(*ssa.Call); ok && calleeQ(&a.Call) == "(*github.com/spf13/pflag.FlagSet).Args" {
-						okArg = true
-					}
-				}
+	// a boolean parameter that decides receives `len(flags.Args()) == 0`
+	for p := range viaParam {
+		fn := p.Parent()
+		idx := -1
+		for i, q := range fn.Params {
+			if q == p {
+				idx = i
 			}
 		}
-		if okArg {
-			c.hold("C06.default", "caller@"+fnName(call.Parent()), call.Pos(), "Finish(len(flags.Args()) == 0)")
-		} else {
-			c.violate("C06.default", "caller@"+fnName(call.Parent()), call.Pos(), fnName(call.Parent()), "Finish is not called with `len(flags.Args()) == 0`: the all/none default no longer follows the presence of ROOT arguments")
+		for _, ci := range c.Callers[fn] {
+			call, ok := ci.(*ssa.Call)
+			if !ok || idx < 0 || idx >= len(call.Call.Args) {
+				continue
+			}
+			if isEmpty, emptyWhen := argsEmpty(call.Call.Args[idx]); isEmpty && emptyWhen {
+				c.hold("C06.default", "caller@"+fnName(call.Parent()), call.Pos(), fnName(fn)+"(len(flags.Args()) == 0)")
+			} else {
+				c.violate("C06.default", "caller@"+fnName(call.Parent()), call.Pos(), fnName(call.Parent()), fnName(fn)+" is not called with `len(flags.Args()) == 0`: the all/none default no longer follows the presence of ROOT arguments")
+			}
 		}
-	}
-	if len(c.Callers[finish]) == 0 {
-		c.violate("C06.default", "caller", finish.Pos(), name, "Finish is never called")
+		if len(c.Callers[fn]) == 0 {
+			c.violate("C06.default", "caller", fn.Pos(), fnName(fn), fnName(fn)+" is never called")
+		}
 	}
 }
 
@@ -282,7 +310,7 @@ func (c *Ctx) flagRegs() []*flagReg {
 						continue
 					}
 					for _, st := range storesTo(fa) {
-						r.Fields[fieldOfAddr(fa).Var.Name()] = c.renderVal(st.Val)
+						r.Fields[vname(fieldOfAddr(fa).Var)] = c.renderVal(st.Val)
 					}
 				}
 			}
@@ -323,7 +351,7 @@ func (c *Ctx) flagRegs() []*flagReg {
 												continue
 											}
 											if ev, ok := c.evalWithRowRendered(st.Val, tbl, i); ok {
-												ri.Fields[fieldOfAddr(fa).Var.Name()] = ev
+												ri.Fields[vname(fieldOfAddr(fa).Var)] = ev
 											}
 										}
 									}
@@ -558,7 +586,7 @@ func ruleC06Flags(c *Ctx) {
 		}
 		for i := 0; i < st.NumFields(); i++ {
 			fv := st.Field(i)
-			val, set := r.Fields[fv.Name()]
+			val, set := r.Fields[vname(fv)]
 			switch {
 			case isNamed(fv.Type(), modPath+"/git", "Combiner"):
 				comb = val
@@ -755,6 +783,17 @@ func ruleC06Flex(c *Ctx) {
 		}
 	}
 	lenFact := func(b *ssa.BasicBlock, min int64) bool {
+		// implied by the dominating conditions (`s != ""`, HasPrefix, …)
+		if fn := b.Parent(); len(b.Instrs) > 0 {
+			F := &bfn{c: c, f: fn}
+			F.computeLoadEq()
+			z := newZone()
+			F.defFacts(z, b.Instrs[0])
+			F.pathFacts(z, b)
+			if !z.proveLE(zLin{a: "0", k: 1}, zLin{a: "0"}) && z.proveLE(zLin{a: "0", k: min}, F.lenLin(s)) {
+				return true
+			}
+		}
 		return guardedBy(b, func(cond ssa.Value, truth bool) bool {
 			cmp, ok := cond.(*ssa.BinOp)
 			if !ok {
@@ -987,7 +1026,6 @@ func ruleC06Flex(c *Ctx) {
 	}
 }
 
-
 // ruleC06ImmutableOptions: a selection option may occur several times; each
 // occurrence must be judged by the polarity and pattern it was registered
 // with, so the option value must not rewrite its own configuration while
@@ -1020,7 +1058,7 @@ func ruleC06ImmutableOptions(c *Ctx) {
 				return
 			}
 			bad = true
-			c.violate("C06.fold", "immutable-option:"+fnName(f)+":"+fieldOfAddr(fa).Var.Name(), st.Pos(), fnName(f), "handling one occurrence of the option rewrites the option's own "+fieldOfAddr(fa).Var.Name()+": a later occurrence of the same option is then judged with the altered polarity/pattern instead of its own")
+			c.violate("C06.fold", "immutable-option:"+fnName(f)+":"+vname(fieldOfAddr(fa).Var), st.Pos(), fnName(f), "handling one occurrence of the option rewrites the option's own "+vname(fieldOfAddr(fa).Var)+": a later occurrence of the same option is then judged with the altered polarity/pattern instead of its own")
 		})
 		if !bad {
 			c.hold("C06.fold", "immutable-option:"+fnName(f), f.Pos(), "the option value's own configuration is not modified")
